@@ -186,6 +186,11 @@ fn build_body(toks: &[Tok], b: &mut Builder, nprocs_callable: usize, top_level: 
                 out.push(Item::Ins(Insn::new("push", vec![Opd::R16(R16::AX)])));
                 out.push(Item::Ins(Insn::new("popf", vec![])));
             }
+            12 if in_proc => {
+                // the machine stack is not where CALL and RET of this emulator keep their return addresses: a procedure may
+                // pop what its caller pushed, or leave something behind, and still return to its caller
+                out.push(Item::Ins(Insn::new(if t.a % 2 == 0 { "pop" } else { "push" }, vec![Opd::R16(R16::AX)])));
+            }
             13 if special_jump.is_some() && t.a % 3 == 0 => {
                 // jump to the label that precedes a procedure definition: the body runs and its
                 // ret finds no active call
@@ -306,6 +311,9 @@ pub struct Features {
     pub repeated_call: bool,
     /// a call executed inside a procedure directly after a PUSH (popped again after the callee returned)
     pub push_call_in_proc: bool,
+    /// a procedure returned with SP above / below its value at the call
+    pub ret_with_sp_above: bool,
+    pub ret_with_sp_below: bool,
 }
 
 pub fn features(p: &Program, trace: &[usize], flat: &Flat) -> Features {
@@ -324,6 +332,10 @@ pub fn features(p: &Program, trace: &[usize], flat: &Flat) -> Features {
     let mut calls: std::collections::HashMap<String, u32> = Default::default();
     let mut push_call_in_proc = false;
     let mut prev_push = false;
+    // relative stack depth (bytes) along the trace
+    let mut sp: i64 = 0;
+    let mut sp_at_call: Vec<i64> = Vec::new();
+    let (mut above, mut below) = (false, false);
     for &i in trace {
         let was_push = prev_push;
         prev_push = matches!(&flat.ops[i], FlatOp::Ins(x) if x.mn == "push");
@@ -332,14 +344,31 @@ pub fn features(p: &Program, trace: &[usize], flat: &Flat) -> Features {
                 if depth >= 1 && was_push {
                     push_call_in_proc = true;
                 }
+                sp_at_call.push(sp);
                 depth += 1;
                 maxd = maxd.max(depth);
                 if let Some(Opd::Name(n)) = x.ops.get(0) {
                     *calls.entry(n.clone()).or_insert(0) += 1;
                 }
             }
-            FlatOp::Ins(x) if x.mn == "ret" => depth -= 1,
-            FlatOp::ImpliedRet => depth -= 1,
+            FlatOp::Ins(x) if x.mn == "ret" => {
+                depth -= 1;
+                match sp_at_call.pop() {
+                    Some(s) if sp > s => above = true,
+                    Some(s) if sp < s => below = true,
+                    _ => {}
+                }
+            }
+            FlatOp::ImpliedRet => {
+                depth -= 1;
+                match sp_at_call.pop() {
+                    Some(s) if sp > s => above = true,
+                    Some(s) if sp < s => below = true,
+                    _ => {}
+                }
+            }
+            FlatOp::Ins(x) if x.mn == "push" || x.mn == "pushf" => sp -= 2,
+            FlatOp::Ins(x) if x.mn == "pop" || x.mn == "popf" => sp += 2,
             _ => {}
         }
     }
@@ -354,5 +383,5 @@ pub fn features(p: &Program, trace: &[usize], flat: &Flat) -> Features {
     if let Some(Item::Label(_)) = p.code.last() {
         adj = true;
     }
-    Features { backward_jump: backward, call_depth2: maxd >= 2, label_adjacent_special: adj, repeated_call: calls.values().any(|c| *c >= 2), push_call_in_proc }
+    Features { backward_jump: backward, call_depth2: maxd >= 2, label_adjacent_special: adj, repeated_call: calls.values().any(|c| *c >= 2), push_call_in_proc, ret_with_sp_above: above, ret_with_sp_below: below }
 }
